@@ -117,6 +117,13 @@ def gen_impl_consts():
             ok = False
     else:
         ok = False
+    # where the parser's recursion is counted: `self.enter()?` once in parse_primary, once in parse_op, and once in
+    # parse_op_inner (the branches of a conditional) - and nowhere else (the iterations of the operator loop do not recurse)
+    def fn_body(name):
+        m = re.search(r"\n    fn\s+%s\s*\(.*?\n    \}\n" % name, parser, re.S)
+        return m.group(0) if m else ""
+    enters = [len(re.findall(r"self\.enter\(\)\?", fn_body(n))) for n in ("parse_primary", "parse_op", "parse_op_inner")]
+    total_enters = len(re.findall(r"self\.enter\(\)\?", parser))
     def z(v): return "(%s)%%Z" % v
     text = ("(* GENERATED on every run by vlib/build.py from the source text of /repo/src/parser.rs and operator.rs. *)\n"
             "From Coq Require Import ZArith NArith.\nOpen Scope N_scope.\n\n"
@@ -125,7 +132,9 @@ def gen_impl_consts():
             "Definition impl_bp (prec : Z) (right : bool) : Z * Z :=\n"
             "  let l_bp := (prec * %s)%%Z in (l_bp, if right then (l_bp + %s)%%Z else (l_bp + %s)%%Z).\n"
             "Definition impl_bp_unregistered : Z * Z := (%s, %s).\n"
-            % ("true" if ok else "false", max_depth, mul, z(right), z(left), z(unreg[0]), z(unreg[1])))
+            "(* calls of enter() in parse_primary, parse_op, parse_op_inner; and in the whole file *)\n"
+            "Definition impl_enter_sites : N * N * N * N := (%s, %s, %s, %s).\n"
+            % ("true" if ok else "false", max_depth, mul, z(right), z(left), z(unreg[0]), z(unreg[1]), enters[0], enters[1], enters[2], total_enters))
     return write_if_changed(os.path.join(COQ, "Gen", "ImplConsts.v"), text)
 
 _ESC = {"t": 9, "r": 13, "n": 10, "'": 39, '"': 34, "\\": 92, "0": 0}
